@@ -47,13 +47,13 @@ def targets():
   from openhtf.output.callbacks import json_factory
   from openhtf.util import atomic_write
 
-  def chunked(fail_after):
+  def chunked(fail_after, exc=SerializerFault):
     class Chunked(callbacks.OutputToFile):
       @staticmethod
       def serialize_test_record(test_rec):
         for i in range(3):
           if fail_after is not None and i == fail_after:
-            raise SerializerFault('serializer raises after %d chunks' % i)
+            raise exc('serializer raises after %d chunks' % i)
           yield '{chunk%d}' % i
     return Chunked
 
@@ -75,6 +75,13 @@ def targets():
   for fa in (None, 0, 1, 2):
     out.append(('OutputToFile/chunked serializer%s' % ('' if fa is None else ' raising after %d chunks' % fa),
                 run_cb(chunked(fa)), b'{chunk0}{chunk1}{chunk2}', fa is not None))
+  # the interruption need not be an Exception: Ctrl-C, interpreter exit, a thread kill
+  # (threads.ThreadTerminationError is a SystemExit) landing inside the callback
+  from openhtf.util import threads
+  for exc in (KeyboardInterrupt, SystemExit, threads.ThreadTerminationError, GeneratorExit):
+    for fa in (0, 2):
+      out.append(('OutputToFile/chunked serializer interrupted by %s after %d chunks' % (exc.__name__, fa),
+                  run_cb(chunked(fa, exc)), b'{chunk0}{chunk1}{chunk2}', True))
   out.append(('OutputToFile/default pickle serializer', run_cb(callbacks.OutputToFile), 'pickle', False))
   out.append(('OutputToJSON', run_cb(json_factory.OutputToJSON), 'json', False))
   for fa in (None, 0, 2):
@@ -112,7 +119,7 @@ def one_case(name, run, expect, serializer_fails, rec, old, fail_kind, fail_n, c
     with fsrec.Recorder(scratch, dest, crash_at=crash_at, fail_kind=fail_kind, fail_n=fail_n) as r:
       try:
         run(rec, pattern, dest)
-      except Exception as e:  # pylint: disable=broad-except
+      except BaseException as e:  # pylint: disable=broad-except
         err = type(e).__name__
     content = None
     if os.path.exists(dest):
@@ -155,7 +162,7 @@ def crash_probe(name, run, expect, sf, rec, old, fail_kind, fail_n, k):
       with fsrec.Recorder(scratch, dest, crash_at=k, fail_kind=fail_kind, fail_n=fail_n):
         try:
           run(rec, pattern, dest)
-        except Exception:  # pylint: disable=broad-except
+        except BaseException:  # pylint: disable=broad-except
           pass
     finally:
       os._exit(78)
